@@ -14,6 +14,16 @@ pub fn expect_cell(id: u64, n: u64, j: usize, dim: usize) -> u64 {
     }
 }
 
+/// special (non-finite / beyond-f32) value shown by a float-valued counting chain in "special" mode:
+/// in some transitions the last cell holds 1e300, +inf or NaN instead of its ordinary value
+pub fn special_cell(id: u64, n: u64, j: usize, dim: usize) -> Option<f64> {
+    if dim >= 2 && j == dim - 1 && n > 0 && (id + n) % 7 == 2 {
+        Some([1e300, f64::INFINITY, f64::NAN][((n / 7) % 3) as usize])
+    } else {
+        None
+    }
+}
+
 /// A chain whose state shows (chain id, number of transitions so far, a mixing cell per extra dim).
 #[derive(Clone, Debug)]
 pub struct CountChain<T> {
@@ -23,11 +33,17 @@ pub struct CountChain<T> {
     pub state: Vec<T>,
     /// extra work per step: number of scheduling points inside one transition
     pub inner_points: u32,
+    /// show special values (see `special_cell`) where the element type can hold them
+    pub special: bool,
 }
 
 pub trait Cell: Clone + Send + 'static {
     fn of(v: u64) -> Self;
     fn back(&self) -> f64;
+    /// the element type's rendering of a special f64 value (None: the type cannot hold it)
+    fn of_special(_v: f64) -> Option<Self> {
+        None
+    }
 }
 impl Cell for f64 {
     fn of(v: u64) -> f64 {
@@ -36,6 +52,9 @@ impl Cell for f64 {
     fn back(&self) -> f64 {
         *self
     }
+    fn of_special(v: f64) -> Option<f64> {
+        Some(v)
+    }
 }
 impl Cell for f32 {
     fn of(v: u64) -> f32 {
@@ -43,6 +62,9 @@ impl Cell for f32 {
     }
     fn back(&self) -> f64 {
         *self as f64
+    }
+    fn of_special(v: f64) -> Option<f32> {
+        Some(v as f32)
     }
 }
 impl Cell for i32 {
@@ -64,12 +86,21 @@ impl Cell for usize {
 
 impl<T: Cell> CountChain<T> {
     pub fn new(id: u64, dim: usize) -> Self {
-        let mut c = CountChain { id, n: 0, dim, state: vec![], inner_points: 0 };
+        let mut c = CountChain { id, n: 0, dim, state: vec![], inner_points: 0, special: false };
         c.render();
         c
     }
     fn render(&mut self) {
-        self.state = (0..self.dim).map(|j| T::of(expect_cell(self.id, self.n, j, self.dim))).collect();
+        self.state = (0..self.dim)
+            .map(|j| {
+                if self.special {
+                    if let Some(v) = special_cell(self.id, self.n, j, self.dim).and_then(T::of_special) {
+                        return v;
+                    }
+                }
+                T::of(expect_cell(self.id, self.n, j, self.dim))
+            })
+            .collect();
     }
 }
 
